@@ -7,13 +7,15 @@
 (* the model-level theorems  SpecParse(Print*(t)) = t  are checked here.   *)
 (***************************************************************************)
 EXTENDS OData, Json
-CONSTANTS MaxOps, Wide
+CONSTANTS MaxOps, Wide, Paths      \* Paths: the long-path atoms (a separate, shallow run)
 VARIABLES t, n
 
 a == Id0("a")  b == Id0("b")  one == IntL(1)
 E == Hole("e")
 \* (the same three-segment path under a namespaced and under a plain root: two different operands)
-Atoms == IF Wide THEN {a, b, one, Attr(a, "p"), StrL(<<120>>), Attr(Attr(Id(<<"ns">>, "a"), "p"), "q"), Attr(Attr(a, "p"), "q")} ELSE {a, b}
+Atoms == IF Wide THEN {a, b, one, Attr(a, "p"), StrL(<<120>>)}
+                      \cup (IF Paths THEN {Attr(Attr(Id(<<"ns">>, "a"), "p"), "q"), Attr(Attr(a, "p"), "q"), Attr(Attr(Id(<<"ns">>, "b"), "p"), "q")} ELSE {})
+         ELSE {a, b}
 \* bracketing constructs reset precedence: their holes are ordinary expression holes
 Brackets == IF Wide
             THEN { Call(Id0("concat"), <<E, b>>), Call(Id(<<"f">>, "g"), <<E>>), Lst(<<E>>), Lst(<<a, E>>),
